@@ -730,7 +730,7 @@ def main():
     part = Partial()
     doc_pairs(bindir, part)
     rep.merge(part.dump())
-    n = 200 if a.tier == 'quick' else 1200
+    n = 200 if a.tier == 'quick' else 4000
     for r in parallel(worker, [(bindir, i, n, a.tier) for i in range(16)]):
         rep.merge(r)
     return rep.finish(
